@@ -186,12 +186,15 @@ struct Scenario {
     open_end: bool,
     /// the `drop` steps reset the TCP connection (SO_LINGER 0) instead of closing it with a FIN
     abortive: bool,
+    /// the client also has a UDP remote, and this many datagrams are sent to it right after the first attempt has
+    /// failed, i.e. while the tunnel is down and nothing drains the client's datagram queue (0: no UDP remote)
+    udp_flood: usize,
 }
 
 impl Scenario {
     /// everything the scenarios of families A-D have in common
     fn plain() -> Self {
-        Self { kind: Kind::Script, family: "", script: Vec::new(), n: 0, cap_ms: 300, down_at: None, outage_ms: 0, ka: None, wss: false, hs_ms: HS_TIMEOUT_MS, open_end: false, abortive: false }
+        Self { kind: Kind::Script, family: "", script: Vec::new(), n: 0, cap_ms: 300, down_at: None, outage_ms: 0, ka: None, wss: false, hs_ms: HS_TIMEOUT_MS, open_end: false, abortive: false, udp_flood: 0 }
     }
     fn steps(&self) -> Option<Vec<Step>> {
         model_x(&self.script, self.n, self.cap_ms, self.ka.is_some(), self.open_end)
@@ -202,8 +205,8 @@ impl Scenario {
         let (i, t) = self.ka.unwrap_or((KA_I_MS, KA_T_MS));
         (i, t.max(i))
     }
-    fn client_cfg(&self, sport: u16, lport: u16) -> net::ClientCfg {
-        net::ClientCfg { sport, lport, max_retry_count: self.n, max_retry_interval_ms: self.cap_ms, keepalive_ms: self.ka, wss: self.wss, handshake_timeout_ms: self.hs_ms, channel_timeout_ms: CH_TIMEOUT_MS }
+    fn client_cfg(&self, sport: u16, lport: u16, udp_lport: Option<u16>) -> net::ClientCfg {
+        net::ClientCfg { sport, lport, max_retry_count: self.n, max_retry_interval_ms: self.cap_ms, keepalive_ms: self.ka, wss: self.wss, handshake_timeout_ms: self.hs_ms, channel_timeout_ms: CH_TIMEOUT_MS, udp_lport }
     }
     fn to_json(&self) -> Value {
         json!({
@@ -220,6 +223,7 @@ impl Scenario {
             "server_url_scheme": if self.wss { "wss" } else { "ws" },
             "observed_until_end_of_script_only": self.open_end,
             "drop_is_tcp_reset": self.abortive,
+            "udp_datagrams_during_first_outage": self.udp_flood,
         })
     }
     fn from_json(v: &Value) -> Result<Self, String> {
@@ -246,6 +250,7 @@ impl Scenario {
             hs_ms: v["handshake_timeout_ms"].as_u64().unwrap_or(HS_TIMEOUT_MS),
             open_end: v["observed_until_end_of_script_only"].as_bool().unwrap_or(false),
             abortive: v["drop_is_tcp_reset"].as_bool().unwrap_or(false),
+            udp_flood: v["udp_datagrams_during_first_outage"].as_u64().unwrap_or(0) as usize,
         })
     }
     fn ident(&self) -> String {
@@ -272,6 +277,9 @@ impl Scenario {
         }
         if self.abortive {
             s += " drop=tcp-reset";
+        }
+        if self.udp_flood > 0 {
+            s += &format!(" udp-remote+{}-datagrams-during-the-first-outage", self.udp_flood);
         }
         if self.wss || self.hs_ms != HS_TIMEOUT_MS {
             s += &format!(" handshake_timeout={}ms", self.hs_ms);
@@ -545,6 +553,17 @@ fn build_matrix(thorough: bool) -> (Vec<Scenario>, Bounds) {
         v.push(ab(vec![Beh::Mute, Beh::Drop, h], 0, 300, None));
         v.push(ab(vec![Beh::Drop, Beh::Reset, Beh::Reset], 2, 300, None));
         v.push(Scenario { ka: ka0, ..ab(vec![Beh::Drop, h], 0, 300, Some(0)) });
+    }
+    // J: the client also serves a UDP remote, and local datagrams keep arriving while the tunnel is down (more than its
+    // datagram queue holds): that is traffic to be delayed or dropped, not a reason to stop retrying or to close listeners
+    let uf = |script: Vec<Beh>, n: u32, cap_ms: u64, flood: usize| Scenario { family: "J-udp-remote-during-outage", script, n, cap_ms, udp_flood: flood, ..Scenario::plain() };
+    v.push(uf(vec![Beh::Reset, Beh::Reset, h], 0, 300, 100));
+    v.push(uf(vec![Beh::Reset, h], 1, 300, 200));
+    v.push(uf(vec![Beh::Stall, h], 0, 300, 100));
+    if thorough {
+        v.push(uf(vec![Beh::Reset, Beh::Reset, Beh::Reset, h], 0, 300_000, 500));
+        v.push(uf(vec![Beh::Close0, Beh::Reset, h], 0, 300, 100));
+        v.push(uf(vec![Beh::Reset, Beh::Reset], 1, 300, 100));
     }
     // G: the server closes the WebSocket in an orderly way and then keeps the TCP connection open and silent: the
     // tunnel connection is lost all the same (with or without keepalive), and the client reconnects like after `close0`
@@ -847,7 +866,13 @@ async fn exec_script(sc: &Scenario, iso: bool) -> Exec {
     let sh = Shared::new();
     sh.abortive.store(sc.abortive, std::sync::atomic::Ordering::SeqCst);
     let server = tokio::spawn(serve(listener, sc.script.clone(), sh.clone()));
-    let client = spawn_client(sc.client_cfg(sport, lport), sh.clone());
+    // (a free UDP port for the optional UDP remote)
+    let uport = if sc.udp_flood > 0 { std::net::UdpSocket::bind("127.0.0.1:0").and_then(|s| s.local_addr()).map(|a| a.port()).ok() } else { None };
+    if sc.udp_flood > 0 && uport.is_none() {
+        ex.machinery = Some("no free UDP port".into());
+        return ex;
+    }
+    let client = spawn_client(sc.client_cfg(sport, lport, uport), sh.clone());
     let mut ctl = Ctl { sh: sh.clone(), lport, locals: Vec::new(), listener_seen: Arc::new(AtomicBool::new(false)) };
     let len = sc.script.len();
 
@@ -940,6 +965,23 @@ async fn exec_script(sc: &Scenario, iso: bool) -> Exec {
                     break;
                 }
             }
+            _ => {}
+        }
+        if j == 0 {
+            if let (Some(up), n @ 1..) = (uport, sc.udp_flood) {
+                // the tunnel is down (or this attempt will never get anywhere): local datagrams keep coming
+                if let Ok(sock) = tokio::net::UdpSocket::bind("127.0.0.1:0").await {
+                    for i in 0..n {
+                        let _ = sock.send_to(&[0xd6, (i % 251) as u8, (i / 251) as u8], ("127.0.0.1", up)).await;
+                        if i % 16 == 15 {
+                            tokio::task::yield_now().await;
+                        }
+                    }
+                }
+            }
+        }
+        match b {
+            Beh::Reset | Beh::Http404 | Beh::Close0 | Beh::Close300 | Beh::CloseHold | Beh::Drop => {}
             Beh::Mute => {
                 if ctl.locals.is_empty() {
                     ctl.open("timeout");
@@ -1389,7 +1431,7 @@ async fn exec_refuse(sc: &Scenario, iso: bool) -> Exec {
         return ex;
     };
     let sh = Shared::new();
-    let client = spawn_client(sc.client_cfg(sport, lport), sh.clone());
+    let client = spawn_client(sc.client_cfg(sport, lport, None), sh.clone());
     let sum: u64 = (0..sc.n).map(|k| delay_ms(k, sc.cap_ms)).sum();
     sh.wait(LONG_WAIT_MS + 3 * sum, |l| l.client_end.as_ref().map(|_| ())).await;
     let end = sh.read(|l| l.client_end.clone());
@@ -1423,7 +1465,7 @@ async fn exec_outage(sc: &Scenario, iso: bool) -> Exec {
         return ex;
     };
     let sh = Shared::new();
-    let client = spawn_client(sc.client_cfg(sport, lport), sh.clone());
+    let client = spawn_client(sc.client_cfg(sport, lport, None), sh.clone());
     let mut ctl = Ctl { sh: sh.clone(), lport, locals: Vec::new(), listener_seen: Arc::new(AtomicBool::new(false)) };
     tokio::time::sleep(Duration::from_millis(sc.outage_ms / 2)).await;
     if sc.down_at.is_some() {
